@@ -18,7 +18,7 @@ RULE = ('Hypothesis documents (profile "full" with global comments before the he
         'sub-sequence with category in the README-tree closure of the filter; unique listing == first occurrences by '
         'encoding; frequencies sum to the listing and agree per encoding; get_metacomments == the "!!" lines in order, '
         'with key == those starting with "!!!key"; is_monophonic == (one **kern header and no chord and >=1 '
-        'note/rest).  A second run uses degenerate documents (no barline, zero to two data rows, no null tokens in the '
+        'note/rest); before every document four small scores with other spine layouts are imported, queried and released.  A second run uses degenerate documents (no barline, zero to two data rows, no null tokens in the '
         'data rows, with or without a **kern spine); a third one documents without any **kern spine whose notes live in '
         '**root spines (next to **text / **dynam / **harm).  Non-trivial: the document has a split and at least one global comment after the header.')
 ASSUMPTIONS = ['kv/spine.py depth-first order', 'kv/cats.py closure',
@@ -61,9 +61,21 @@ def enc_of(c):
     return c['e'] if c['k'] == 'bar' else c['t']
 
 
+_THROWAWAY = ['**kern\n*clefG2\n4c\n4d\n*-\n', '**kern\t**kern\n*clefF4\t*clefG2\n4C\t4c\n*-\t*-\n', '**text\nla\n*-\n',
+              '**kern\t**text\t**kern\n4c 4e\tla\t4g\n*-\t*-\t*-\n']
+
+
 def check(case):
     doc = case['doc']
     text = S.render(doc)
+    # documents that were queried and released before this one was imported (a stream of scores in one process): the
+    # answers for this document are its own, wherever in memory it happens to live
+    import gc
+    for t_ in _THROWAWAY:
+        d_ = kp.loads(t_)[0]
+        kp.is_monophonic(d_), kp.spine_types(d_), d_.get_all_tokens_encodings(), d_.frequencies()
+        del d_
+    gc.collect()
     kdoc = K.loads_clean(text)
     a = S.analyze(doc)
     rows = doc['rows']
